@@ -289,7 +289,7 @@ def r1_invariants(db, rep):
                     sets = [x for x in facts.fn_nodes(f) if x["k"] == "CXXMemberCallExpr" and x.get("cname") == setter and len(x["c"]) == 2]
                     okp = False
                     for st in sets:
-                        a = facts.strip_all(st["c"][1])
+                        a = facts.strip_all(facts.inline_locals(f, st["c"][1]))     # `const uint16_t remaining = n() - 1; n(remaining);`
                         if a["k"] == "BinaryOperator" and a.get("op") == want and facts.cval(a["c"][1]) == 1 and setter + "()" in facts.expr_str(a["c"][0]):
                             okp = True
                     if not okp:
@@ -624,7 +624,7 @@ def r3(db, rep):
                     # destination: constant offset and length?
                     off = const_offset(f, args[0], tainted, pb)
                     ln = facts.cval(args[2])
-                    if off is not None and ln is not None and u["var"] == pb:
+                    if off is not None and ln is not None:
                         acc = accepted_before(p)
                         if off + ln <= acc:
                             verdict = ("ok", "%s of %d byte(s) at offset %d, inside the %d byte(s) the cursor accepted before on every path" % (cn, ln, off, acc))
@@ -827,15 +827,20 @@ def ieval_unknown():
     return ieval.Unknown
 
 
-def const_offset(f, e, tainted, pb):
+def const_offset(f, e, tainted, pb, depth=0):
     """constant byte offset of a pointer expression from the buffer parameter, or None"""
     e = strip(e)
     while e["k"] in ("ImplicitCastExpr", "ParenExpr", "CStyleCastExpr", "CXXReinterpretCastExpr", "CXXStaticCastExpr") and e.get("c"):
         e = strip(e["c"][0])
     if e["k"] == "DeclRefExpr":
-        return 0 if e.get("var") == pb else None
+        if e.get("var") == pb:
+            return 0
+        sa = facts.single_assign(f)
+        if e.get("var") in sa and not e.get("parm") and depth < 4:
+            return const_offset(f, sa[e["var"]], tainted, pb, depth + 1)     # `uint8_t* const p = buffer + K;`
+        return None
     if e["k"] == "BinaryOperator" and e.get("op") == "+":
-        a = const_offset(f, e["c"][0], tainted, pb)
+        a = const_offset(f, e["c"][0], tainted, pb, depth)
         b = facts.cval(e["c"][1])
         if a is not None and b is not None:
             t = facts.ty(f, e["c"][0]) or {}
